@@ -101,6 +101,10 @@ def _gen_index_case(ch: core.Chooser) -> dict:
         case.update(dimensions=2, stop=stop2, start=start2, cross_truncation=c2.choice([1, 2, "inf", "inf"]))
         if case.get("bound_dtype") == "uint8":
             case["bound_dtype"] = "uint16"
+    if c2.chance(0.03):
+        # the largest expansions of the quantified domain (beyond a thousand terms)
+        case.update(dimensions=4, stop=c2.choice([6, [6, 6, 6, 5], [5, 6, 6, 6]]), start=0, cross_truncation="inf", big=True)
+        case.pop("abort_first", None)
     if c2.chance(0.2):
         # an allocation request made inside the call fails (MemoryError at the k-th one): the call may raise, but a
         # value it does return is the exact answer
@@ -147,7 +151,7 @@ def generate(rs: int, tier: str, index: int) -> dict:
             step = dict(c, id=0, k="bindex", ordering="".join(x for x in "GRI" if ch.chance(0.5)), mutate_first=ch.chance(0.3))
         elif kind == "monomial":
             c = _gen_index_case(ch.sub("c"))
-            if c["dimensions"] > 3:
+            if c["dimensions"] > 3 and not c.get("big"):
                 c["dimensions"] = 3
                 for key in ("start", "stop"):
                     if isinstance(c[key], list):
@@ -260,7 +264,9 @@ class Runner:
         policies = step.get("policies", policies)
         for pol in policies:
             name = "prng" if pol.startswith("prng") else pol
-            with seams.Env(core.H(self.rs, pol), sort=name) as env:
+            # fresh memory holds a fixed pattern (not zeros, not whatever this process freed last): a result that
+            # depends on it is wrong in the same way in every execution of the run
+            with seams.Env(core.H(self.rs, pol), sort=name, fill="a5") as env:
                 env.begin_step(step["id"])
                 try:
                     res = func()
